@@ -191,7 +191,7 @@ B_SHAPES = ["http://h", "http://h/", "http://h/a", "http://h/a/", "http://h/a/b"
             "http:/a/b", "http:a/b", "http:", "http://h/a/../b", "http://h/./a"]
 R_SHAPES = ["", "?y", "#s", "?y#s", "g", "g/", "g/h", "./g", "../g", "../../g", "../../../g", ".", "./", "..", "../", "g/.", "g/..", "g/../h", "g/./h", "/g", "/", "/./g",
             "/../g", "//g", "//g/h", "//g?y", "//u@g:9/h", "http:g", "http:/g", "http://g/h", "http:", "https:g", "https://o/p", "mailto:z", "g?y", "g#s", "g?y#s", ";x",
-            "g;x", "g//h", "//", "%2E%2E/g", ".%2E/g", "%2e/g", "...", ".../g", "g%2Fh", "%25", "é", "a b", "?", "#", "g?y/../x", "g#s/../x", "HTTP:g", "../%2E%2E/g", "x/../../../../y"]
+            "g;x", "g//h", "//", "%2E%2E/g", ".%2E/g", "%2e/g", "...", ".../g", "g%2Fh", "%25", "é", "a b", "?", "#", "g?y/../x", "g#s/../x", "HTTP:g", "../%2E%2E/g", "x/../../../../y", "../../..//g", "/..//g", "..//", "../../../..//a//b"]
 
 
 def table(ctx, backend):
